@@ -5,7 +5,8 @@ from vlib import core
 
 PID = "C13"
 ENTRIES = {"c13quote": ("Quote.Entry", "entry_c13_quote"), "c13read": ("Quote.Entry", "entry_c13_read"),
-           "c13decode": ("Quote.Entry", "entry_c13_decode")}
+           "c13decode": ("Quote.Entry", "entry_c13_decode"), "c13fmt": ("Quote.Entry", "entry_c13_fmt"),
+           "c13readc": ("Quote.Entry", "entry_c13_readc")}
 TRUSTED = [
     "modelled, not verified: brush-core/src/escape.rs quote/force_quote/quote_if_needed/backslash_escape/single_quote/"
     "double_quote/ansi_c_quote (hand model over regenerated tables, tied by differential execution at API level)",
@@ -338,6 +339,56 @@ def run(ctx, extended=False):
         if a != b:
             mism.append({"what": "expand_backslash_escapes (ANSI-C mode)", "text": s, "model": core.dec_line(a), "code": core.dec_line(b)})
 
+    # ------------------------------------------------------------------ C3. declare -p array values: format == model, reader spec
+    rng = ctx.rng
+    short = [s for s in strs[:ex_n] if len(s) <= 2] + strs[ex_n:ex_n + 300]
+    fcases = []
+    for _ in range(2500 if ctx.quick else 30000):
+        n = rng.randrange(0, 4)
+        if rng.random() < 0.5:
+            keys = sorted({rng.randrange(0, 30) for _ in range(n)})
+            fcases.append(["i"] + [x for k in keys for x in (str(k), rng.choice(short))])
+        else:
+            keys = sorted({rng.choice(short) for _ in range(n)} - {""}, key=lambda x: x.encode())
+            fcases.append(["h"] + [x for k in keys for x in (k, rng.choice(short))])
+    fi = ctx.impl("c13fmt", fcases)
+    fm = ctx.model("c13fmt", fcases)
+    ftexts = []
+    for c, a, b in zip(fcases, fi, fm):
+        if a != b:
+            mism.append({"what": "ShellValue::format(DeclarePrint)", "case": c, "code": core.dec_line(a), "model": core.dec_line(b)})
+        ftexts.append((core.dec_line(a) or [""])[0])
+    rc = [core.dec_line(l) for l in ctx.model("c13readc", [[t] for t in ftexts])]
+    decl_ok = 0
+    rcons = []
+    for c, t, r in zip(fcases, ftexts, rc):
+        want = ["S"] + c[1:]
+        if r == want:
+            decl_ok += 1
+            rcons.append((c, t))
+        else:
+            keys = c[1::2]
+            kf = "KF-C13-tilde-hash" if (c[0] == "h" and any(known_pos(k) and not has_ctrl(k) for k in keys)) else None
+            if kf and sum(1 for v in specv if v.get("known") == kf) > 60:
+                continue
+            specv.append({"input": {"array": c}, "why": "declare -p value %r does not read back as the array (reader spec: %r)" % (t, r[:9]),
+                          **({"known": kf} if kf else {})})
+    # the compound reader spec against bash (where the spec answers), on a sample / all
+    bs = rcons if (not ctx.quick or extended) else rng.sample(rcons, min(400, len(rcons)))
+    bres2 = bash_many([("var:%s" % ("a" if c[0] == "i" else "h"),
+                        "declare -%s %s=%s" % ("a" if c[0] == "i" else "A", "a" if c[0] == "i" else "h", t)) for c, t in bs])
+    for (c, t), parts in zip(bs, bres2):
+        got = norm_bash("assoc" if c[0] == "h" else "arr", "var", parts)
+        kv = list(zip(c[1::2], c[2::2]))
+        if c[0] == "h":
+            kv = sorted(kv, key=lambda x: x[0].encode())
+        want = ["h" if c[0] == "h" else "a"] + [x for p in kv for x in p]
+        spec_vs_bash["cases"] += 1
+        if got == want:
+            spec_vs_bash["agree"] += 1
+        else:
+            raise core.CheckBroken("the compound-assignment reader specification disagrees with bash on %r: bash %r" % (t, got))
+
     # ------------------------------------------------------------------ D. extraction cross-check
     sidx = ctx.rng.sample(range(len(qcases)), 30)
     ce = ctx.coq_eval("c13quote", [[qcases[i][0], qcases[i][1]] for i in sidx])
@@ -354,7 +405,7 @@ def run(ctx, extended=False):
             "api_texts_failing_reader_spec": api_fail,
             "reader_texts": len(utexts), "reader_some": len(some),
             "e2e_values": len(vals), "e2e_print_cases": len(pcases), "e2e_read_cases": len(ccases),
-            "e2e": e2e, "per_form": per_form, "ansi_c_decoder_cases": dec_cmp,
+            "e2e": e2e, "per_form": per_form, "ansi_c_decoder_cases": dec_cmp, "declare_p_arrays": len(fcases), "declare_p_arrays_reading_back": decl_ok,
             "lengths": {"0-3": sum(1 for s in strs if len(s) <= 3), "4-15": sum(1 for s in strs if 4 <= len(s) <= 15),
                         "16+": sum(1 for s in strs if len(s) > 15)},
             "with_control_chars": sum(1 for s in strs if has_ctrl(s)), "in_class_Known": sum(1 for s in strs if known_pos(s))}
